@@ -25,8 +25,28 @@ M3 = {a + b: (1.0 if a == b else 0.0) + 0.1 * (i - j) for i, a in enumerate("xyz
 M4 = {a + b: (1.0 if a == b else 0.0) + 0.05 * (i - 2 * j) for i, a in enumerate("xyzt") for j, b in enumerate("xyzt")}
 
 
+def _fresh(v):
+    """an independent copy of a vector of any backend (the in-place operator forms are applied to the copy, never to the lattice's operand)"""
+    import copy as _copy
+    if isinstance(v, np.ndarray):
+        return v.copy()
+    if ak is not None and isinstance(v, (ak.Array, ak.Record)):
+        return _copy.deepcopy(v)
+    return _copy.copy(v)
+
+
+def _inplace(opf, other):
+    """`w = copy(v); w <op>= other` - the value bound to w afterwards (NumPy / object vectors update in place, Awkward rebinds)"""
+    def f(v, *b):
+        w = _fresh(v)
+        return opf(w, other if not b else b[0])
+    return f
+
+
 def unary_ops(d, mom):
+    import operator
     ops = [(p, lambda v, p=p: getattr(v, p)) for p in PLANAR_PROPS]
+    ops += [("v*=-1.5", _inplace(operator.imul, -1.5)), ("v/=-4", _inplace(operator.itruediv, -4.0)), ("v*=2.5", _inplace(operator.imul, 2.5))]
     ops += [("unit", lambda v: v.unit()), ("scale(1.7)", lambda v: v.scale(1.7)), ("scale(-0.6)", lambda v: v.scale(-0.6)), ("scale2D(2)", lambda v: v.scale2D(2.0)),
             ("neg2D", lambda v: v.neg2D), ("rotateZ", lambda v: v.rotateZ(0.3)), ("transform2D", lambda v: v.transform2D(M2)),
             ("-v", lambda v: -v), ("+v", lambda v: +v), ("v*2.5", lambda v: v * 2.5), ("1.5*v", lambda v: 1.5 * v), ("v/4", lambda v: v / 4.0),
@@ -226,6 +246,8 @@ def run_unary(F, system, mom, layouts, seed, extras_layouts=("ak-jagged", "ak-re
                 continue
             if layout.endswith("-spacelike") and name in ("numpy.sqrt", "numpy.cbrt"):
                 continue        # fractional powers of a negative tau^2: outside the domain of the definition (Python floats give complex numbers, NumPy gives NaN)
+            if layout.startswith("ak") and name in ("v*=-1.5", "v/=-4", "v*=2.5"):
+                continue        # Awkward arrays are immutable: augmented assignment is not part of their interface (Awkward raises TypeError)
             if layout.startswith("ak-record") and name.startswith("allclose"):
                 continue        # allclose is a method of arrays; a record is a single vector
             if layout.startswith("ak") and name.startswith("numpy.isclose"):
